@@ -244,3 +244,352 @@ Lemma connection_isolation_2 cap evs1 evs2 id :
   conn_bytes evs1 id = conn_bytes evs2 id ->
   srv_get (srv_run cap evs1) id = srv_get (srv_run cap evs2) id.
 Proof. intros H. rewrite !connection_isolation, H. reflexivity. Qed.
+
+(* ---------- the decoder against the declarative framing ---------- *)
+
+Definition all_decoded (fs : list wframe) (c : conn) : Prop :=
+  map (fun f => decode_request (snd f)) fs = map Some (rev (c_reqs c)).
+
+Inductive Inv (cap : N) (bytes : list N) (c : conn) : Prop :=
+| InvHead fs rest :
+    bytes = flat fs ++ rest -> Forall (wf_wframe cap) fs -> all_decoded fs c ->
+    c_state c = Head rest -> (length rest < 4)%nat -> Inv cap bytes c
+| InvData fs b0 b1 b2 b3 got need :
+    bytes = flat fs ++ [b0; b1; b2; b3] ++ rev got -> Forall (wf_wframe cap) fs -> all_decoded fs c ->
+    c_state c = Data need got -> 0 < need -> be32 b0 b1 b2 b3 = blen got + need ->
+    be32 b0 b1 b2 b3 <= cap -> Inv cap bytes c
+| InvBad fs bad rest :
+    bytes = flat fs ++ wire bad ++ rest -> Forall (wf_wframe cap) fs -> all_decoded fs c ->
+    wf_wframe cap bad -> decode_request (snd bad) = None ->
+    c_state c = Closed BadMessage -> Inv cap bytes c
+| InvBig fs rest :
+    bytes = flat fs ++ rest -> Forall (wf_wframe cap) fs -> all_decoded fs c ->
+    oversized cap rest = true -> c_state c = Closed FrameTooBig -> Inv cap bytes c.
+
+Lemma flat_snoc fs f : flat (fs ++ [f]) = flat fs ++ wire f.
+Proof. unfold flat. rewrite map_app, concat_app. simpl. rewrite app_nil_r. reflexivity. Qed.
+
+Lemma inv_init cap : Inv cap [] conn_init.
+Proof. apply (InvHead cap [] conn_init [] []); simpl; auto. reflexivity. Qed.
+
+(* a complete frame within the cap has just been assembled *)
+Lemma inv_on_frame cap c fs f :
+  Forall (wf_wframe cap) fs -> all_decoded fs c -> wf_wframe cap f ->
+  Inv cap (flat fs ++ wire f) (on_frame c (snd f)).
+Proof.
+  intros Hwf Hdec Hf. unfold on_frame.
+  destruct (decode_request (snd f)) as [rq|] eqn:D.
+  - apply (InvHead cap _ _ (fs ++ [f]) []).
+    + rewrite flat_snoc, app_nil_r. reflexivity.
+    + apply Forall_app. split; [assumption|]. constructor; [assumption|constructor].
+    + unfold all_decoded, wframe in *. cbn [c_reqs].
+      change (rev (rq :: c_reqs c)) with (rev (c_reqs c) ++ [rq]).
+      rewrite !map_app, Hdec. cbn [map]. rewrite D. reflexivity.
+    + reflexivity.
+    + simpl. lia.
+  - apply (InvBad cap _ _ fs f []).
+    + rewrite app_nil_r. reflexivity.
+    + assumption.
+    + exact Hdec.
+    + assumption.
+    + assumption.
+    + reflexivity.
+Qed.
+
+Lemma oversized_snoc cap rest b : oversized cap rest = true -> oversized cap (rest ++ [b]) = true.
+Proof.
+  destruct rest as [|b0 [|b1 [|b2 [|b3 r]]]]; simpl; try discriminate. auto.
+Qed.
+
+Lemma inv_step cap bytes c b : Inv cap bytes c -> Inv cap (bytes ++ [b]) (step_byte cap c b).
+Proof.
+  intros H. destruct H as [fs rest Hb Hwf Hdec Hst Hlen
+                          | fs b0 b1 b2 b3 got need Hb Hwf Hdec Hst Hneed Hn Hcap
+                          | fs bad rest Hb Hwf Hdec Hbad Hnone Hst
+                          | fs rest Hb Hwf Hdec Hbig Hst].
+  - (* Head *)
+    unfold step_byte. rewrite Hst.
+    destruct rest as [|x0 [|x1 [|x2 [|x3 r]]]]; try (simpl in Hlen; lia).
+    + apply (InvHead cap _ _ fs [b]); simpl; auto. rewrite Hb, <- app_assoc. reflexivity.
+    + apply (InvHead cap _ _ fs [x0; b]); simpl; auto. rewrite Hb, <- app_assoc. reflexivity.
+    + apply (InvHead cap _ _ fs [x0; x1; b]); simpl; auto. rewrite Hb, <- app_assoc. reflexivity.
+    + (* the header is complete *)
+      assert (Hbytes : bytes ++ [b] = flat fs ++ [x0; x1; x2; b]).
+      { rewrite Hb, <- app_assoc. reflexivity. }
+      rewrite Hbytes. cbv zeta.
+      destruct (cap <? be32 x0 x1 x2 b) eqn:Ecap.
+      * apply (InvBig cap _ _ fs [x0; x1; x2; b]); simpl; auto.
+      * destruct (be32 x0 x1 x2 b =? 0) eqn:Ez.
+        -- change ([x0; x1; x2; b]) with (wire ([x0; x1; x2; b], [])).
+           apply (inv_on_frame cap c fs ([x0; x1; x2; b], [])); auto.
+           exists x0, x1, x2, b. cbn [fst snd]. rewrite blen_nil. repeat split; lia.
+        -- apply (InvData cap _ _ fs x0 x1 x2 b [] (be32 x0 x1 x2 b)); simpl; auto.
+           ++ lia.
+           ++ lia.
+  - (* Data *)
+    unfold step_byte. rewrite Hst.
+    assert (Hbytes : bytes ++ [b] = flat fs ++ [b0; b1; b2; b3] ++ rev (b :: got)).
+    { rewrite Hb. simpl rev. rewrite <- !app_assoc. reflexivity. }
+    destruct (need =? 1) eqn:E1.
+    + rewrite Hbytes.
+      change ([b0; b1; b2; b3] ++ rev (b :: got)) with (wire ([b0; b1; b2; b3], rev (b :: got))).
+      apply (inv_on_frame cap c fs ([b0; b1; b2; b3], rev (b :: got))); auto.
+      exists b0, b1, b2, b3. cbn [fst snd].
+      assert (blen (rev (b :: got)) = blen got + 1).
+      { unfold blen. rewrite rev_length. simpl length. lia. }
+      repeat split; lia.
+    + apply (InvData cap _ _ fs b0 b1 b2 b3 (b :: got) (N.pred need)); simpl c_state; simpl c_reqs; auto.
+      * lia.
+      * rewrite blen_cons. lia.
+  - (* Closed BadMessage *)
+    unfold step_byte. rewrite Hst.
+    apply (InvBad cap _ _ fs bad (rest ++ [b])); auto.
+    rewrite Hb, <- !app_assoc. reflexivity.
+  - (* Closed FrameTooBig *)
+    unfold step_byte. rewrite Hst.
+    apply (InvBig cap _ _ fs (rest ++ [b])); auto.
+    + rewrite Hb, <- app_assoc. reflexivity.
+    + apply oversized_snoc. assumption.
+Qed.
+
+Lemma inv_feed cap bytes : Inv cap bytes (feed cap conn_init bytes).
+Proof.
+  induction bytes as [|b bytes IH] using rev_ind.
+  - apply inv_init.
+  - unfold feed in *. rewrite fold_left_app. simpl. apply inv_step. exact IH.
+Qed.
+
+(* Every byte string is a sequence of complete frames within the cap, all but possibly the last of which
+   decode, followed by: a proper prefix of a frame (the connection stays open and waits), or an undecodable
+   frame (closed), or an oversized length prefix (closed).  The requests handed to the service are exactly the
+   decoded frames, in order. *)
+Lemma frame_decoder_total cap bytes :
+  exists fs rest,
+    bytes = flat fs ++ rest /\ Forall (wf_wframe cap) fs /\
+    map (fun f => decode_request (snd f)) fs = map Some (rev (c_reqs (feed cap conn_init bytes))) /\
+    ( (conn_closed (feed cap conn_init bytes) = false /\ incomplete cap rest = true)
+      \/ (c_state (feed cap conn_init bytes) = Closed FrameTooBig /\ oversized cap rest = true)
+      \/ (c_state (feed cap conn_init bytes) = Closed BadMessage /\
+          exists bad tail, rest = wire bad ++ tail /\ wf_wframe cap bad /\ decode_request (snd bad) = None) ).
+Proof.
+  destruct (inv_feed cap bytes) as [fs rest Hb Hwf Hdec Hst Hlen
+                          | fs b0 b1 b2 b3 got need Hb Hwf Hdec Hst Hneed Hn Hcap
+                          | fs bad rest Hb Hwf Hdec Hbad Hnone Hst
+                          | fs rest Hb Hwf Hdec Hbig Hst].
+  - exists fs, rest. repeat split; auto. left. unfold conn_closed. rewrite Hst. split; [reflexivity|].
+    destruct rest as [|x0 [|x1 [|x2 [|x3 r]]]]; try reflexivity. simpl in Hlen. lia.
+  - exists fs, ([b0; b1; b2; b3] ++ rev got). repeat split; auto. left.
+    unfold conn_closed. rewrite Hst. split; [reflexivity|].
+    simpl. assert (blen (rev got) = blen got) by (unfold blen; rewrite rev_length; reflexivity). lia.
+  - exists fs, (wire bad ++ rest). repeat split; auto. right. right. split; [assumption|].
+    exists bad, rest. auto.
+  - exists fs, rest. repeat split; auto.
+Qed.
+
+(* ---------- only a well-formed Shutdown stops the server ---------- *)
+
+Lemma srv_set_keys s id c : In id (map fst s) -> map fst (srv_set s id c) = map fst s.
+Proof.
+  induction s as [|[i c'] s IH]; simpl; intros H; [tauto|].
+  destruct (i =? id) eqn:E; simpl; [reflexivity|].
+  f_equal. apply IH. destruct H; [lia|assumption].
+Qed.
+
+Lemma srv_set_keys_new s id c : ~ In id (map fst s) -> map fst (srv_set s id c) = map fst s ++ [id].
+Proof.
+  induction s as [|[i c'] s IH]; simpl; intros H; [reflexivity|].
+  destruct (i =? id) eqn:E; simpl.
+  - exfalso. apply H. left. lia.
+  - f_equal. apply IH. tauto.
+Qed.
+
+Lemma nodup_snoc (l : list N) x : NoDup l -> ~ In x l -> NoDup (l ++ [x]).
+Proof.
+  induction l as [|y l IH]; simpl; intros Hnd Hnin.
+  - constructor; [tauto|constructor].
+  - inversion Hnd; subst. constructor.
+    + rewrite in_app_iff. simpl. intros [H|[H|[]]]; [tauto|]. apply Hnin. left. congruence.
+    + apply IH; tauto.
+Qed.
+
+Lemma srv_set_nodup s id c : NoDup (map fst s) -> NoDup (map fst (srv_set s id c)).
+Proof.
+  intros H. destruct (in_dec N.eq_dec id (map fst s)) as [Hin|Hnin].
+  - rewrite srv_set_keys; assumption.
+  - rewrite srv_set_keys_new by assumption.
+    apply nodup_snoc; assumption.
+Qed.
+
+Lemma srv_step_nodup cap s ev : NoDup (map fst s) -> NoDup (map fst (srv_step cap s ev)).
+Proof. intros H. unfold srv_step. apply srv_set_nodup. exact H. Qed.
+
+Lemma srv_run_nodup cap evs : NoDup (map fst (srv_run cap evs)).
+Proof.
+  unfold srv_run. induction evs as [|ev evs IH] using rev_ind.
+  - constructor.
+  - rewrite fold_left_app. simpl. apply srv_step_nodup. exact IH.
+Qed.
+
+Lemma srv_get_in s : NoDup (map fst s) -> forall i c, In (i, c) s -> srv_get s i = c.
+Proof.
+  induction s as [|[j c'] s IH]; simpl; intros Hnd i c Hin; [tauto|].
+  inversion Hnd; subst. destruct Hin as [Heq|Hin].
+  - inversion Heq; subst. rewrite N.eqb_refl. reflexivity.
+  - destruct (j =? i) eqn:E.
+    + exfalso. assert (j = i) as -> by lia. apply H1. apply (in_map fst) in Hin. exact Hin.
+    + apply IH; assumption.
+Qed.
+
+(* the accept loop can only be ended by a complete, well-formed, in-cap frame that decodes as Shutdown on
+   some connection (whose earlier frames all decoded) *)
+Lemma only_shutdown_stops_the_server cap evs :
+  srv_shutdown (srv_run cap evs) = true ->
+  exists id fs f post,
+    conn_bytes evs id = flat fs ++ wire f ++ post /\
+    Forall (wf_wframe cap) fs /\ wf_wframe cap f /\
+    decode_request (snd f) = Some ReqShutdown.
+Proof.
+  unfold srv_shutdown. rewrite existsb_exists. intros ([i c] & Hin & Hex).
+  rewrite existsb_exists in Hex. destruct Hex as (rq & Hrq & Hs).
+  destruct rq; try discriminate. cbn [snd] in Hrq.
+  pose proof (srv_get_in _ (srv_run_nodup cap evs) i c Hin) as Hget.
+  rewrite connection_isolation in Hget.
+  destruct (frame_decoder_total cap (conn_bytes evs i)) as (fs & rest & Hb & Hwf & Hdec & _).
+  rewrite Hget in Hdec.
+  assert (Hin2 : In (Some ReqShutdown) (map (fun f : wframe => decode_request (snd f)) fs)).
+  { unfold wframe in *. rewrite Hdec. apply in_map. rewrite <- in_rev. exact Hrq. }
+  apply in_map_iff in Hin2 as (f & Hf & Hinf).
+  apply in_split in Hinf as (fs1 & fs2 & ->).
+  exists i, fs1, f, (flat fs2 ++ rest). repeat split.
+  - rewrite Hb. unfold flat. rewrite map_app, concat_app. simpl. rewrite <- !app_assoc. reflexivity.
+  - apply Forall_app in Hwf as [H1 _]. exact H1.
+  - apply Forall_app in Hwf as [_ H2]. inversion H2; assumption.
+  - exact Hf.
+Qed.
+
+(* contrapositive, for reading: malformed input alone never stops the server *)
+Lemma garbage_does_not_stop_the_server cap evs :
+  (forall id fs f post, conn_bytes evs id = flat fs ++ wire f ++ post ->
+                        wf_wframe cap f -> decode_request (snd f) <> Some ReqShutdown) ->
+  srv_shutdown (srv_run cap evs) = false.
+Proof.
+  intros H. destruct (srv_shutdown (srv_run cap evs)) eqn:E; [|reflexivity].
+  apply only_shutdown_stops_the_server in E as (id & fs & f & post & Hb & _ & Hf & Hd).
+  exfalso. exact (H id fs f post Hb Hf Hd).
+Qed.
+
+(* ---------- what the server writes is what the client reads (round trips) ---------- *)
+
+Lemma be32_enc n : n < 4294967296 ->
+  be32 ((n / 16777216) mod 256) ((n / 65536) mod 256) ((n / 256) mod 256) (n mod 256) = n.
+Proof.
+  intros H. unfold be32.
+  pose proof (N.div_mod n 256 ltac:(lia)) as H0.
+  pose proof (N.div_mod (n / 256) 256 ltac:(lia)) as H1.
+  pose proof (N.div_mod (n / 256 / 256) 256 ltac:(lia)) as H2.
+  rewrite N.div_div in H1, H2 by lia. rewrite N.div_div in H2 by lia.
+  change (256 * 256) with 65536 in *. change (65536 * 256) with 16777216 in *.
+  assert (n / 16777216 < 256) by (apply N.div_lt_upper_bound; lia).
+  rewrite (N.mod_small (n / 16777216) 256) by assumption.
+  lia.
+Qed.
+
+Lemma le32_enc n r : n < 4294967296 -> rd_u32 (enc_le32 n ++ r) = Some (n, r).
+Proof.
+  intros H. unfold enc_le32, rd_u32, le32. simpl app. cbv iota. rewrite be32_enc by assumption. reflexivity.
+Qed.
+
+Lemma framed_frame p rest : blen p < 4294967296 -> framed (frame p ++ rest) p rest.
+Proof.
+  intros H. unfold frame, enc_be32. simpl app.
+  eexists _, _, _, _. split; [reflexivity|]. apply be32_enc. assumption.
+Qed.
+
+Lemma le64_enc n r : n < 18446744073709551616 -> rd_u64 (enc_le64 n ++ r) = Some (n, r).
+Proof.
+  intros H. unfold enc_le64, rd_u64. rewrite <- app_assoc.
+  rewrite le32_enc by (apply N.mod_lt; lia).
+  rewrite le32_enc by (apply N.div_lt_upper_bound; lia).
+  f_equal. f_equal. pose proof (N.div_mod n 4294967296 ltac:(lia)). lia.
+Qed.
+
+Lemma rd_bytes_enc b r : blen b < 18446744073709551616 -> rd_bytes (enc_bytes b ++ r) = Some (b, r).
+Proof.
+  intros H. unfold rd_bytes, enc_bytes. rewrite <- app_assoc, le64_enc by assumption.
+  apply splitN_app.
+Qed.
+
+Definition opt_lt32 (o : option N) : Prop := match o with Some v => v < 4294967296 | None => True end.
+
+Lemma rd_opt32_enc o r : opt_lt32 o -> rd_opt32 (enc_opt32 o ++ r) = Some (o, r).
+Proof.
+  destruct o as [v|]; intros H.
+  - unfold rd_opt32, enc_opt32. cbn [app rd_u8].
+    change (1 =? 0) with false. change (1 =? 1) with true. cbv iota.
+    rewrite le32_enc by exact H. reflexivity.
+  - reflexivity.
+Qed.
+
+Definition wf_finished (f : finished) : Prop :=
+  opt_lt32 (f_retcode f) /\ opt_lt32 (f_signal f) /\
+  blen (f_stdout f) < 18446744073709551616 /\ blen (f_stderr f) < 18446744073709551616 /\ f_color f < 3.
+
+Lemma decode_encode_finished opq f : wf_finished f -> decode_response opq (encode_finished f) = Some (RFinished f).
+Proof.
+  intros (H1 & H2 & H3 & H4 & H5). unfold decode_response, encode_finished.
+  rewrite le32_enc by lia.
+  replace (5 =? 0) with false by reflexivity. replace (5 =? 1) with false by reflexivity.
+  replace (5 =? 5) with true by reflexivity.
+  unfold decode_finished.
+  rewrite rd_opt32_enc by assumption. rewrite rd_opt32_enc by assumption.
+  rewrite rd_bytes_enc by assumption. rewrite rd_bytes_enc by assumption.
+  rewrite <- (app_nil_r (enc_le32 (f_color f))). rewrite le32_enc by lia.
+  replace (f_color f <? 3) with true by lia. destruct f; reflexivity.
+Qed.
+
+Lemma decode_encode_started opq : decode_response opq (encode_compile_response CompileStarted) = Some (RCompile CompileStarted).
+Proof. reflexivity. Qed.
+
+(* the statement in terms of what a real server puts on the wire *)
+Lemma exchange_on_the_wire opq ig f tail e :
+  wf_finished f -> blen (encode_finished f) < 4294967296 ->
+  client opq ig (frame (encode_compile_response CompileStarted) ++ frame (encode_finished f) ++ tail) e
+  = ReturnFinished f.
+Proof.
+  intros Hwf Hlen.
+  apply (complete_exchange opq ig _ (encode_compile_response CompileStarted)
+           (frame (encode_finished f) ++ tail) (encode_finished f) tail f e).
+  - apply framed_frame. reflexivity.
+  - apply decode_encode_started.
+  - apply framed_frame. assumption.
+  - apply decode_encode_finished. assumption.
+Qed.
+
+(* a server that dies while writing: every proper prefix of what it meant to send after the acknowledgement
+   is cut short, so (EOF) the client compiles locally *)
+Lemma prefix_cut_short p k :
+  blen p < 4294967296 -> (k < length (frame p))%nat -> cut_short (firstn k (frame p)) = true.
+Proof.
+  intros Hlen Hk. unfold frame, enc_be32 in *. simpl app in *.
+  destruct k as [|[|[|[|k]]]]; try reflexivity.
+  simpl firstn. unfold cut_short. rewrite be32_enc by assumption.
+  simpl length in Hk.
+  assert (length (firstn k p) < length p)%nat.
+  { rewrite firstn_length. lia. }
+  unfold blen. lia.
+Qed.
+
+Lemma killed_while_answering opq ig f k local :
+  blen (encode_finished f) < 4294967296 ->
+  (k < length (frame (encode_finished f)))%nat ->
+  client opq ig (frame (encode_compile_response CompileStarted) ++ firstn k (frame (encode_finished f))) Eof
+  = RunLocally LEofAfterAck /\
+  exit_code (client opq ig (frame (encode_compile_response CompileStarted) ++ firstn k (frame (encode_finished f))) Eof) local = local.
+Proof.
+  intros Hlen Hk.
+  apply (eof_after_ack opq ig _ (encode_compile_response CompileStarted)
+           (firstn k (frame (encode_finished f))) local).
+  - apply framed_frame. reflexivity.
+  - apply decode_encode_started.
+  - apply prefix_cut_short; assumption.
+Qed.
